@@ -240,10 +240,19 @@ int main(int argc, char **argv)
 			int cal = (int)(rnd() % 4 == 0);
 			int before = narenas;
 			cur_op = "malloc";
-			unsigned char *p = cal ? rs_calloc(1, req) : rs_malloc(req);
+			/* over-size requests beyond 32 bits whose low word alone would be a legal (or zero) size: size_t is the argument type of the
+			 * API; logged as 2^29 + low word (over-size for the specification as well, and within TLC's integers) */
+			size_t req64 = req;
+			int huge = q == 1 && rnd() % 2;
+			if(huge) {
+				unsigned low = rnd() % 3 ? 1 + (unsigned)(rnd() % maxsz) : 0;
+				req64 = ((size_t)(1 + rnd() % 5) << (32 + rnd() % 8)) | low;
+				req = (1U << 29) + low;
+			}
+			unsigned char *p = cal ? rs_calloc(1, req64) : rs_malloc(req64);
 			int zero_ok = 1;
 			int tag = tagc++;
-			if(p) {
+			if(p && !huge) {
 				if(cal)
 					for(unsigned i = 0; i < req; ++i)
 						if(p[i])
@@ -280,10 +289,19 @@ int main(int argc, char **argv)
 			int oldtag = read_tag(old, 1U << b.exp);
 			int before = narenas;
 			cur_op = "realloc";
-			unsigned char *p = rs_realloc(old, req);
+			size_t req64 = req;
+			int huge = q == 1 && rnd() % 2;
+			if(huge) { /* as for malloc: beyond 32 bits, low word legal or zero */
+				unsigned low = rnd() % 3 ? 1 + (unsigned)(rnd() % maxsz) : 0;
+				req64 = ((size_t)(1 + rnd() % 5) << (32 + rnd() % 8)) | low;
+				req = (1U << 29) + low;
+			}
+			unsigned char *p = rs_realloc(old, req64);
 			int tag = tagc++;
 			int pok = 1, k = 0;
-			if(p) {
+			if(p && huge)
+				k = arena_of(p);
+			if(p && !huge) {
 				unsigned keep = req < (1U << b.exp) ? req : (1U << b.exp);
 				pok = prefix_ok(p, keep, oldtag);
 				unsigned e = B_BLOCK_EXP;
